@@ -115,19 +115,21 @@ def stepOp (t : KRows) : KOp → StepOut
     let (t', k) := deleteLim p t n
     ⟨t', k, n = tot || distinct ≤ 1⟩
   | .update lim col v scol sv =>
-    let p := fun r => rowMatches col v r && setCol r scol sv != r
+    -- LIMIT counts *matched* rows (also those the SET leaves unchanged); only changed copies are
+    -- "affected" and move to their image
+    let p := rowMatches col v
     let tot := total t p
     let n := if lim = 0 then tot else min lim tot
     let matched := t.filter (fun e => p e.1)
     let distinct := matched.length
-    -- move up to n copies, first entries first
     let rec go : KRows → Nat → KRows → KRows × Nat
       | [], _, acc => (acc, 0)
       | (r, c) :: rest, n, acc =>
         let k := min c n
-        let acc' := updateN acc r (setCol r scol sv) k
+        let changes := setCol r scol sv != r
+        let acc' := if changes then updateN acc r (setCol r scol sv) k else acc
         let (a, m) := go rest (n - k) acc'
-        (a, k + m)
+        (a, (if changes then k else 0) + m)
     let (t', k) := go matched n t
     ⟨t', k, n = tot || distinct ≤ 1⟩
 
